@@ -20,6 +20,20 @@ CHECKS = {
   "declared size and the success conditions of the statement. Held = no rejected execution among those run.",
   "trusts runtime/metrics allocation accounting and the wire re-encoder; allocation bound 2 MiB + 64 x len(input)",
   "DESIGN.md §5 C02"),
+ "C03": ("srvlab", "exploration",
+  "offline checker over the recorded wire/invocation log of concurrent rounds (exactly-once, byte-exact reply content), schedule perturbation through hook points and a congested transport",
+  "Rounds of 1..64 simultaneously outstanding requests of mixed types are held in the scripted implementation and finished in every permutation (N<=5) or seeded random orders, free-running, "
+  "with random delays at the server's schedule points and with short writes on the transport; after a quiescence barrier the log is judged: one reply per tag, bytes equal to the recomputed "
+  "answer, no reply for a tag not outstanding, a second Respond produces no frame. Held on the rounds and interleavings observed (count in evidence).",
+  "trusts the wire codec, the scripted implementation's determinism and the hook-point placement; interleavings needing a preemption inside a hook-free region are reached only by chance",
+  "DESIGN.md §5 C03"),
+ "C06": ("srvlab", "exploration",
+  "crash monitor: hostile sessions against servers hosted in a crash-isolated worker process (panic/fatal attribution by the supervisor) with bystander and liveness probes after every session",
+  "Structured boundary-value sessions (every T type x fid state x value classes), byte-mutated valid sessions, raw random streams, truncated frames, tiny msize and many short connections are sent to "
+  "the framework+scripted implementation and to Ufs on a scratch tree; the hosting process must survive, a bystander connection must still be served and fresh connections accepted. "
+  "Held = no crash or disturbance in the sessions run.",
+  "the worker process stands for the server process; RLIMIT_AS 4 GiB; Ufs runs as uid 0 on a scratch tree",
+  "DESIGN.md §5 C06"),
  "C04": ("srvlab", "exploration",
   "online reference-model monitor: every request/reply of sequential histories judged against an executable fid-table model, plus invocation/FidDestroy log of a scripted implementation",
   "The real server framework runs in-process with a scripted implementation over scripted in-memory connections; each step of (a) all (fid state x request x outcome) transitions on fresh "
